@@ -1,10 +1,10 @@
 SPECIFICATION Spec
 CONSTANTS
-  MaxRows = 4
+  MaxRows = 3
   ChanCap = 4
   FixedAlter = TRUE
-  MaxPersists = 4
+  MaxPersists = 3
   MaxDeletes = 2
-  FirstOnlyModified = FALSE
+  FirstOnlyModified = TRUE
 INVARIANTS LayersParallel IndexesAgree StatsExact ReopenSeesAll BtreeCount DurableIndexesAgree
 CHECK_DEADLOCK FALSE
